@@ -26,6 +26,20 @@ class C07(GenCheck):
     assumptions = []
     known_classes = {}
 
+    def rand_const(self, rng, fmt):
+        """constants around the immediate-field boundaries, before and after the byte swap"""
+        if rng.random() < 0.4:
+            return exprs.rand_value(rng, fmt)
+        letter = fmt[-1]
+        n, sg = dsl.fmt_size(fmt), dsl.fmt_signed(fmt)
+        base = exprs.BOUNDARY64 + [0x80000001, 0xfffffffe, 0x7ffffffe, -0x7fffffff, -0x100000000, 0x8000000000, 0x123456789a, rng.randrange(2 ** 31, 2 ** 32)]
+        cands = []
+        for c in base:
+            for v in (c, int.from_bytes((c % (1 << 64)).to_bytes(8, "little")[:n][::-1], "little")):
+                v = wrap(letter, v)
+                cands.append(v)
+        return rng.choice(cands)
+
     def make_case(self, rng):
         G = rng.choice([8, 9, 14, 16, 20, 31, 32, 48])
         decls, values = [("ran", "local", "B")], {"ran": 0}
@@ -50,7 +64,7 @@ class C07(GenCheck):
             if r < 0.35:
                 stmts.append(["set", ["v", rng.choice(locs)[0]], ["v", name]])
             elif r < 0.5:
-                stmts.append(["set", ["v", name], ["c", exprs.rand_value(rng, fmt)]])
+                stmts.append(["set", ["v", name], ["c", self.rand_const(rng, fmt)]])
             elif r < 0.7:
                 stmts.append(["set", ["v", name], ["v", rng.choice(locs)[0]]])
             elif r < 0.85:
